@@ -250,6 +250,15 @@ func checkC14(p *Prog, r *Report) {
 					}
 				}
 			})
+			/* Or: Go receives from the channel the reader closes when it
+			is done. */
+			if _, isChan := typeOfChan(rd.group); nil == join && isChan {
+				eachInstr(goFn, func(i ssa.Instruction) {
+					if u, ok := i.(*ssa.UnOp); ok && token.ARROW == u.Op && !u.CommaOk && resolveCell(u.X) == resolveCell(rd.group) {
+						join = i
+					}
+				})
+			}
 			if nil == join {
 				rWait.Bad(c, posOf(rd.spawn), "the goroutine reading %s is never joined in Go", rd.field.Name())
 				continue
@@ -407,6 +416,9 @@ func spawnOf(parent, f *ssa.Function) (ssa.Instruction, ssa.Value) {
 			if cf, _ := closureOf(c.Value); cf == f {
 				out = i
 				group = waitGroupOf(parent, f, i)
+				if nil == group {
+					group = doneChanOf(f)
+				}
 			}
 		}
 	})
@@ -560,4 +572,43 @@ func fieldsOfType(st *types.Struct, match func(types.Type) bool, depth int) []*t
 		}
 	}
 	return out
+}
+
+func typeOfChan(v ssa.Value) (*types.Chan, bool) {
+	if nil == v {
+		return nil, false
+	}
+	c, ok := v.Type().Underlying().(*types.Chan)
+	return c, ok
+}
+
+// doneChanOf: the goroutine f closes a channel on every way out (a deferred
+// close in its first block, or a close which precedes every return): whoever
+// receives from that channel has waited for f.  Returns the channel.
+func doneChanOf(f *ssa.Function) ssa.Value {
+	var ch ssa.Value
+	eachInstr(f, func(i ssa.Instruction) {
+		c := callCommon(i)
+		if nil == c {
+			return
+		}
+		bi, isB := c.Value.(*ssa.Builtin)
+		if !isB || "close" != bi.Name() || 1 != len(c.Args) {
+			return
+		}
+		if _, isDefer := i.(*ssa.Defer); isDefer && i.Block() == f.Blocks[0] {
+			ch = resolveCell(resolveFree(c.Args[0]))
+			return
+		}
+		all := true
+		eachInstr(f, func(j ssa.Instruction) {
+			if isReturn(j) && (nil == f.Recover || j.Block() != f.Recover) && !instrDominates(i, j) {
+				all = false
+			}
+		})
+		if all {
+			ch = resolveCell(resolveFree(c.Args[0]))
+		}
+	})
+	return ch
 }
